@@ -331,4 +331,28 @@ theorem unpackGet_append (w : Nat) (hw : unpackerWidthOk w = true) (vals : List 
       Nat.add_mul_mod_self_left]
   rw [key, packNat_get w vals h i hi]
 
+/-- the same for any closed stream (the last byte may hold padding bits): bytes after the stream do
+not disturb a read of a value that lies inside it -/
+theorem unpackGet_append_any (w : Nat) (hw : unpackerWidthOk w = true) (vals : List Nat)
+    (h : ∀ v ∈ vals, v < 2 ^ w) (rest : Bytes) (hrest : BytesOk rest) (i : Nat) (hi : i < vals.length) :
+    unpackGet w i (pack w vals ++ rest) = vals[i] := by
+  have hw64 : w ≤ 64 := by
+    have : w ≤ 56 ∨ w = 64 := (widthOk_iff w).mp hw
+    omega
+  obtain ⟨hval, hok, hlen⟩ := pack_spec w hw64 vals h
+  rw [unpackGet_spec w i _ (hok.append hrest) hw, leNat_append, hval, hlen, pow256]
+  generalize hL : 8 * ((w * vals.length + 7) / 8) = L
+  have hLge : w * vals.length ≤ L := by omega
+  have key : ∀ R, (packNat w vals + 2 ^ L * R) / 2 ^ (i * w) % 2 ^ w
+      = packNat w vals / 2 ^ (i * w) % 2 ^ w := by
+    intro R
+    have hle : i * w + w ≤ w * vals.length := by
+      have : (i + 1) * w ≤ vals.length * w := Nat.mul_le_mul_right _ hi
+      rw [Nat.succ_mul] at this; rw [Nat.mul_comm w]; exact this
+    have e2 : 2 ^ L = 2 ^ (i * w) * (2 ^ w * 2 ^ (L - (i * w + w))) := by
+      rw [← Nat.pow_add, ← Nat.pow_add]; congr 1; omega
+    rw [e2, Nat.mul_assoc, Nat.add_mul_div_left _ _ (Nat.two_pow_pos _), Nat.mul_assoc,
+      Nat.add_mul_mod_self_left]
+  rw [key, packNat_get w vals h i hi]
+
 end TantivyModel.Columnar
